@@ -612,7 +612,7 @@ def histCase : P String := do
         match store.getD s none with
         | some st => outs := outs ++ [s!"dumpv v={showMat st.sm.vars} p={showMat st.sm.pars} a={showFs st.sm.atol.toList} r={showF st.sm.rtol}"]
         | none => outs := outs ++ ["nostate"]
-      | "cpc" | "cpa" =>
+      | "cpc" | "cpa" | "cpa0" | "cpax" =>
         let s ← nat; let d ← nat
         store := store.setIfInBounds d (store.getD s none); outs := outs ++ ["ok"]
       | "mvc" | "mva" =>
